@@ -197,18 +197,20 @@ CLAIMED = {
   note="Trusted: Lean kernel; injective-KDF idealisation (a real hash is not injective: the theorem is the symbolic statement); Lean HKDF reference for the byte rows; harness.",
   ref="DESIGN.md §4 C18"),
  "C12": dict(
-  technique="Lean 4 proof (generic codec model: round trip, exact size, canonical re-encoding, minimal varints, in-bounds prefixes, allocation bound, totality; side conditions decided for every schema generated from the Rust types) + translator + decode correspondence on valid / mutated / random bytes",
+  technique="Lean 4 proof (generic codec model: round trip, exact size, canonical re-encoding, minimal varints, in-bounds prefixes, allocation bound, totality; side conditions decided for every schema and every codec record generated from the Rust types, incl. the hand-written codecs) + translator + decode correspondence on valid / mutated / random bytes and on real messages and stored state",
   text="Theorems MlsVerif.Props.C12 hold for EVERY schema, value and byte string: roundtrip (needs Progress), size_exact, decode_wf, decode_consumes_prefix, decode_progress (no loop: the "
        "decoders are total structural recursions), canonical (needs Canon: no bool, no map - machine-checked counter-witnesses for both), decode_reencode_stable, varint_unique / varint_minimal / "
-       "varint_no_panic, prefix_in_bounds, alloc_bound. Props.C12Gen decides Progress and Canon for each of the ~93 schemas the translator regenerates from the Rust items on every run "
-       "(repo_roundtrip, repo_canonical, repo_size_exact, repo_alloc_bound), Props.C12Custom proves the same laws for the hand-written codecs (Proposal, Credential, PublicMessage, "
-       "FramedContent/auth data, PrivateMessageContent padding, SecretKeyRatchet, CommitEffect, LeafIndex, ExtensionList) as Lawful codec records. Tie: ~18k `dec` rows per quick run over 73 "
-       "decodable generated types (consumed, length, same/diff, value text) with zero tolerated differences, plus the direct oracle (no panic, exact length, canonical wire types, produced "
-       "values round-trip, measured peak heap) incl. ~460 values with hand-written codecs harvested from real histories and their mutations.",
-  note="Trusted: Lean kernel; schema extractor (validated by the rows); hand-written CodecCustom models are tied by the oracle only (except LeafIndex / ExtensionList). Stated deviations "
-       "of the code from the property text, proved as witnesses: bool accepts any non-zero byte and maps accept any key order (non-canonical, state types only: no wire type contains either - "
-       "repo_canon), vectors of zero-size elements do not round-trip (no repository type has one - repo_progress), proposal type 0 decodes but does not re-encode, ratchet history accepts "
-       "duplicate generations.",
+       "varint_no_panic, prefix_in_bounds, alloc_bound. Props.C12Gen decides Progress and Canon for each of the ~93 schemas regenerated from the Rust items on every run. Props.C12Custom proves "
+       "the law bundle Lawful (round trip with exact consumption, exact size, decoded values well-formed) for the hand-written codecs (Proposal incl. the reserved-type rule, Credential, "
+       "PublicMessage, FramedContent / auth data, PrivateMessageContent padding, SecretKeyRatchet, CommitEffect, LeafIndex, ExtensionList); Props.C12GenCodecs proves it REFLECTIVELY "
+       "(lawful_denote + decide on okSpec) for the 53 codec records the translator composes from derived and hand-written parts: MlsMessage, PublicMessage, AuthenticatedContent, Commit, "
+       "UpdatePath, Proposal, LeafNode, KeyPackage, Node, exported tree, Credential, Snapshot, RawGroupState, PriorEpoch, SecretTree, PendingCommit, ExternalSnapshot, ... Tie: ~22k rows per "
+       "quick run: `dec` rows over 73 decodable schema types (structured-valid, mutated, random bytes) and ~4.5k `decc` rows where the composed codec models decode real and mutated "
+       "messages, key packages, GroupInfo, exported trees, snapshots, prior epochs and commit secrets harvested from random group histories; zero tolerated differences; plus the direct oracle "
+       "(no panic, exact length, canonical wire types, produced values round-trip, measured peak heap).",
+  note="Trusted: Lean kernel; schema / codec extractor (validated by the rows). Stated deviations of the code from the property text, proved as witnesses: bool accepts any non-zero byte and maps "
+       "accept any key order (non-canonical, state types only: no wire type contains either - repo_canon / wire_flags), vectors of zero-size elements do not round-trip (no repository type has "
+       "one), ratchet history accepts duplicate generations. Canonicity of the composed WIRE codecs is checked by the rows and the oracle, not proved. Fixed defect found here: F33 (proposal type 0).",
   ref="DESIGN.md §4 C12"),
  "C14": dict(
   technique="Lean 4 proof (model of the generic HPKE / DHKEM construction over an abstract primitive record: receiver context = sender context, seal/open sequences, nonce injectivity, export, psk rules, cross-provider interop; abstract X.509 verdict) + byte-level correspondence of the real Hpke/DhKem code and of each provider's hash/MAC/HKDF with the Lean reference + three-provider differential + mixed-provider group histories",
